@@ -2,6 +2,9 @@ module xv
 
 go 1.13
 
-require gosrc.io/xmpp v0.0.0
+require (
+	gosrc.io/xmpp v0.0.0
+	nhooyr.io/websocket v1.6.5
+)
 
 replace gosrc.io/xmpp => /repo
